@@ -1,7 +1,7 @@
 """C02 - aggregation completeness / monotonicity (narrow; DESIGN.md section 4, C02)."""
 from core import glob_match
 from engine import (Sink, find_guards, fn_origins, success_reachable, track_result, return_assigns,
-                    loop_body_entry, switch_edges, ok_payload, CMP_REL, ALL3)
+                    loop_body_entry, switch_edges, ok_payload, CMP_REL, ALL3, flows_forward, LOSSY_COLLECTIONS)
 from props.common import Ctx, ret_ok_some, ret_ok_none, fn_short  # noqa: F401
 
 EXPLANATION = (
@@ -51,6 +51,59 @@ def _same_site(body, operand, call, depth=8):
             elif rv[0] in ('ref', 'cfd', 'discr'):
                 work.append(('copy', rv[1]))
     return False
+
+
+VIEW_CALLS = ('::deref', '::deref_mut', '::iter', '::iter_mut', '::into_iter', '::as_slice', '::as_mut_slice', '::as_ref', '::as_mut', '::borrow', '::borrow_mut',
+              '::values', '::values_mut', '::keys', '::index', '::index_mut', '::get', '::get_mut', '::first', '::last', '::by_ref', '::rev', '::enumerate', '::peekable')
+
+
+def _base_locals(body, op, depth=10):
+    """The locals a value is a VIEW of: followed back through copies, references and view-preserving calls (deref, iter, index ...)."""
+    out, seen = set(), set()
+    work = [(op[1][0], depth)] if op[0] in ('copy', 'move') else []
+    while work:
+        l, d = work.pop()
+        if l in seen:
+            continue
+        seen.add(l)
+        nxt = []
+        for (bi, si, pl, rv) in body.defs(l):
+            if pl[1]:
+                continue
+            if si == 't':
+                c = rv
+                if any(n.endswith(VIEW_CALLS) for n in c.names()) and c.args and c.args[0][0] in ('copy', 'move'):
+                    nxt.append(c.args[0][1][0])
+            elif rv[0] == 'ref':
+                nxt.append(rv[1][0])
+            elif rv[0] == 'use' and rv[1][0] in ('copy', 'move'):
+                nxt.append(rv[1][1][0])
+        if not nxt or d == 0:
+            out.add(l)
+        for n in nxt:
+            work.append((n, d - 1))
+    return out
+
+
+def _enclosing_loops(body, bb):
+    """[(next() call, block entered for Some(item))] of every Iterator::next-driven loop around bb."""
+    from engine import switch_edges
+    out = []
+    for c in body.calls():
+        if not any(glob_match('<* as std::iter::traits::iterator::Iterator>::next', n) or n == 'std::iter::traits::iterator::Iterator::next' for n in c.names()):
+            continue
+        for (bi, si, how, payload) in body.uses(c.dest[0]):
+            if how == 'stmt' and payload[1][0] == 'discr':
+                for (b2, s2, how2, pay2) in body.uses(payload[0][0]):
+                    if how2 == 'sw':
+                        su, fa = switch_edges(b2, pay2[0], 'option', +1)
+                        for _, st in su:
+                            if bb in body.reach([st], stop={c.bb}) and c.bb in body.reach([bb]):
+                                out.append((c, st))
+    return out
+
+
+COLL_WRITES = ('::push', '::push_back', '::insert', '::entry', '::extend', '::or_insert_with', '::or_insert', '::or_default', '::append')
 
 
 def run(ctx):
@@ -109,37 +162,148 @@ def run(ctx):
                         from engine import closure_args
                         for cn in closure_args(h.body, c):
                             for cl in f.family():
-                                if getattr(cl, '_orig', cl).name == cn and ctx.mpt.enforces(getattr(cl, '_orig', cl), Sink('verify', [SVERIFY], 'ok'), 'true').holds:
+                                if getattr(cl, '_orig', cl).name != cn:
+                                    continue
+                                clo = getattr(cl, '_orig', cl)
+                                verifying = ctx.mpt.enforces(clo, Sink('verify', [SVERIFY], 'ok'), 'true').holds
+                                if not verifying:
+                                    # `|s| Self::is_valid(s)`: the closure returns the verdict of a helper that itself requires the verification
+                                    for cc in clo.body.calls():
+                                        for n in cc.names():
+                                            for hh in ctx.ws.by_name.get(n, []):
+                                                if hh.kind in ('fn', 'assoc_fn') and hh.unit.crate == clo.unit.crate and 'bool' == hh.ret.strip() and \
+                                                        track_result(clo.body, cc.dest[0], +1, 'bool').returned and \
+                                                        ctx.mpt.enforces(hh, Sink('verify', [SVERIFY], 'ok'), 'true').holds:
+                                                    verifying = True
+                                if verifying:
                                     filt.append(c)
-            ins = [c for c in body.calls() if any(glob_match('std::collections::btree::map::BTreeMap::insert', n) or glob_match('std::collections::btree::map::BTreeMap::entry', n) for n in c.names())]
-            if filt:
-                R.ok('a', 'R2', inst2, 'the items pass a verifying filter (line %s) before the bookkeeping' % [c.line for c in filt], f.loc())
-            else:
+            if not filt:
                 R.info('a', 'the shape of the selection (verification outside the loop body, no verifying filter recognised) is not decided by this rule')
+        else:
+            filt = []
+        # Selection state may only ever see verified signatures.  Equivalent layouts: the bookkeeping sits behind the successful
+        # verification of the signature being processed (in the loop body, or because the loop consumes a verifying filter), or it
+        # iterates over a collection that is only filled behind it.
+        succ = set()
         for c in sites:
-            tr = track_result(body, c.dest[0], +1)
-            # and the success arm is the only way to the bookkeeping
+            succ |= track_result(body, c.dest[0], +1).success_edges
+        vloops = {}
+        unverified = None
+        if sites:
+            unverified = body.reach([0], removed=succ)          # blocks reachable without a successful verification
+            vloops = {id(lc): lc for c in sites for (lc, st) in _enclosing_loops(body, c.bb)}
+        elif filt and filt[0] in list(body.calls()):
+            # loops driven by the verifying filter: everything in their bodies handles a verified item
+            fdest = set()
+            for c in filt:
+                fdest |= flows_forward(body, {c.dest[0]})
+            inside = set()
+            for lc in body.calls():
+                if any(glob_match('<* as std::iter::traits::iterator::Iterator>::next', n) or n == 'std::iter::traits::iterator::Iterator::next' for n in lc.names()) \
+                        and lc.args and lc.args[0][0] in ('copy', 'move') and lc.args[0][1][0] in fdest and not (_base_locals(body, lc.args[0]) & {3}):
+                    vloops[id(lc)] = lc
+                    for bi_ in range(len(body.blocks)):
+                        if any(l2 is lc for (l2, st2) in _enclosing_loops(body, bi_)):
+                            inside.add(bi_)
+            if vloops:
+                unverified = set(range(len(body.blocks))) - inside
+        if unverified is not None:
+            sites_or_filter = True
+            # collections filled only behind a successful verification, inside the verification loop
+            writes = []          # (block, base locals written)
+            for c in body.calls():
+                # a closure handed to the call that writes into a captured collection (`entry(..).or_insert_with(|| { v.push(..); .. })`)
+                for a_ in c.args:
+                    if a_[0] in ('copy', 'move') and not a_[1][1]:
+                        for (bi_, si_, pl_, rv_) in body.defs(a_[1][0]):
+                            if si_ != 't' and rv_[0] == 'agg' and rv_[1] in ('closure', 'coroutine'):
+                                wr_ = any(n.endswith(COLL_WRITES) for g_ in f.family() if getattr(g_, '_orig', g_).name == rv_[2]
+                                          for cc_ in g_.body.calls() for n in cc_.names())
+                                if wr_:
+                                    caps = set()
+                                    for cap in rv_[5]:
+                                        # only what the closure can write: captures by mutable reference
+                                        if cap[0] in ('copy', 'move') and any(si2 != 't' and rv2[0] == 'ref' and rv2[2] for (bi2, si2, pl2, rv2) in body.defs(cap[1][0])):
+                                            caps |= _base_locals(body, cap)
+                                    if caps:
+                                        writes.append((c.bb, caps))
+                if any(n.endswith(COLL_WRITES) for n in c.names()) and c.args:
+                    writes.append((c.bb, _base_locals(body, c.args[0])))
+            verified_colls = set()
+
+            def behind_verification_bb(bb):
+                if bb not in unverified:
+                    return True
+                for (lc, st) in _enclosing_loops(body, bb):
+                    bl_ = _base_locals(body, lc.args[0]) if lc.args else set()
+                    if bl_ and bl_ <= verified_colls:
+                        return True
+                return False
+
+            def behind_verification(cc):
+                return behind_verification_bb(cc.bb)
+            # fixpoint: a collection all of whose writes happen behind the verification (directly, or while iterating over an already
+            # verified collection) holds verified signatures only
+            all_colls = set()
+            for bb_, bl_ in writes:
+                all_colls |= bl_
+            changed = True
+            while changed:
+                changed = False
+                for coll in sorted(all_colls - verified_colls):
+                    if all(behind_verification_bb(bb_) for bb_, bl_ in writes if coll in bl_):
+                        verified_colls.add(coll)
+                        changed = True
             uses = [cc for cc in body.calls() if any(glob_match('std::collections::btree::map::BTreeMap::insert', n) or glob_match('std::collections::btree::map::BTreeMap::entry', n) for n in cc.names())]
-            reach2 = body.reach([0], removed=tr.success_edges)
-            bad = [cc for cc in uses if cc.bb in reach2]
+            bad = [cc for cc in uses if not behind_verification(cc)]
             if bad or not uses:
                 R.violation('a', 'R2', inst2, 'select:verified-before-insert', 'index map update at line %s reachable without a successful verify'
                             % [cc.line for cc in bad], f.loc())
             else:
-                R.ok('a', 'R2', inst2, '%d update site(s)' % len(uses), f.loc())
+                R.ok('a', 'R2', inst2, '%d update site(s); collections filled only with verified signatures: %d' % (len(uses), len(verified_colls)), f.loc())
             # ... nor any other selection state: the removal lists are written by the contest, and an unverified challenger that books an
             # index on the incumbent's removal list leaves that index covered by nobody (seed C02-4: verification made lazy, after the contest)
             MAPUPD = ('std::collections::btree::map::BTreeMap::insert', 'std::collections::btree::map::BTreeMap::entry', 'std::collections::btree::map::BTreeMap::remove',
                       'std::collections::btree::map::BTreeMap::get_mut', 'std::collections::hash::map::HashMap::insert', 'std::collections::hash::map::HashMap::entry',
-                      'std::collections::hash::map::HashMap::remove', 'std::collections::hash::map::HashMap::get_mut')
+                      'std::collections::hash::map::HashMap::remove', 'std::collections::hash::map::HashMap::get_mut',
+                      'std::collections::hash::set::HashSet::insert', 'std::collections::hash::set::HashSet::replace', 'std::collections::hash::set::HashSet::remove',
+                      'std::collections::btree::set::BTreeSet::insert', 'std::collections::btree::set::BTreeSet::replace', 'std::collections::btree::set::BTreeSet::remove')
             upd = [cc for cc in body.calls() if any(glob_match(q, n) for q in MAPUPD for n in cc.names())]
-            bad2 = [cc for cc in upd if cc.bb in reach2]
+            bad2 = [cc for cc in upd if not behind_verification(cc)]
             inst3 = 'select_valid_signatures_for_k_indices: no selection state (index map, removal lists) is written for an unverified signature'
             if bad2 or not upd:
                 R.violation('a', 'R2', inst3, 'select:verified-before-bookkeeping', 'map updates at line %s reachable without a successful verify of the signature being processed'
                             % sorted({cc.line for cc in bad2}), f.loc())
             else:
                 R.ok('a', 'R2', inst3, '%d update site(s)' % len(upd), f.loc())
+        # F15: signatures are EQUAL when their sigma is, whatever indices they list; the selection keys its state on that equality.  Copies of
+        # one signature that list different indices must therefore be merged (union of their verified indices) before the contest - else
+        # the copy met first hides the indices only the others carry.
+        merges = []
+        if unverified is not None:
+            inst4 = 'select_valid_signatures_for_k_indices: the indices verified for equal copies of a signature are merged into one entry'
+            SETI = '*::set_concatenation_signature_indices'
+            GETI = '*::get_concatenation_signature_indices'
+            item_locals = set()
+            for lc in vloops.values():
+                item_locals |= flows_forward(body, {lc.dest[0]})
+            for c in body.calls():
+                if not any(glob_match(SETI, n) for n in c.names()) or c.bb in unverified or len(c.args) < 2:
+                    continue
+                if not (_base_locals(body, c.args[0]) & verified_colls):
+                    continue
+                feeders = [g_ for g_ in body.calls() if any(glob_match(GETI, n) for n in g_.names()) and c.args[1][0] in ('copy', 'move')
+                           and c.args[1][1][0] in flows_forward(body, {g_.dest[0]})]
+                from_item = [g_ for g_ in feeders if g_.args and g_.args[0][0] in ('copy', 'move') and g_.args[0][1][0] in item_locals
+                             and not (_base_locals(body, g_.args[0]) & verified_colls)]
+                from_entry = [g_ for g_ in feeders if g_.args and (_base_locals(body, g_.args[0]) & verified_colls)]
+                if from_item and from_entry:
+                    merges.append(c)
+            if merges:
+                R.ok('a', 'R5', inst4, 'merge site(s) at line %s' % [c.line for c in merges], f.loc())
+            else:
+                R.violation('a', 'R5', inst4, 'select:copies-merged', 'no site stores, for an entry of a verified collection, the union of its indices and those of the copy being '
+                            'processed: a copy restricted to some indices (or repeating one) that is met first hides the indices of the original', f.loc())
         # arguments of the per-signature verification
         ctx.arg_origin('a', SELECT, SVERIFY, 2, require=['p#3', 'call:*get_verification_key_for_concatenation'], desc='(vk) <- sig.reg_party')
         ctx.arg_origin('a', SELECT, SVERIFY, 3, require=['p#3', 'call:*::get_stake'], desc='(stake) <- sig.reg_party')
@@ -171,7 +335,7 @@ def run(ctx):
                 continue
             a_inc = has(g.a_orig, 'call:std::collections::btree::map::BTreeMap::get')
             b_inc = has(g.b_orig, 'call:std::collections::btree::map::BTreeMap::get')
-            if a_inc != b_inc and has(g.a_orig if b_inc else g.b_orig, 'p#3'):
+            if a_inc != b_inc:
                 # operands must be the signatures themselves, not a projection like sigma
                 other = g.a_orig if b_inc else g.b_orig
                 if not has(other, 'call:*get_concatenation_signature_sigma'):
@@ -184,10 +348,15 @@ def run(ctx):
                 if a0[0] in ('copy', 'move'):
                     og = fn_origins(f, a0, False)
                     tys = [body.lty(a0[1][0])]
-                    if any('SingleSignatureWithRegisteredParty' in t for t in tys):
+                    # the removal lists: a map from a signature to the indices it must give up (not a position / count index)
+                    if any('SingleSignatureWithRegisteredParty' in t and 'Vec<' in t for t in tys):
                         book.append(c)
         inst = 'select_valid_signatures_for_k_indices: removal bookkeeping only for challenger != incumbent'
-        if not book:
+        merged_first = bool(f is not None and locals().get('merges')) and all(behind_verification(c) for c in book) and all(c.bb in unverified for c in book)
+        if book and merged_first:
+            # the contest runs over one merged entry per signature (rule select:copies-merged): a signature cannot meet itself
+            R.ok('e', 'R6', inst, 'equal copies are merged before the contest (%d bookkeeping site(s) iterate the merged collection)' % len(book), f.loc())
+        elif not book:
             R.violation('e', 'R6', inst, 'select:self-competition:vacuous', 'no removal bookkeeping site found', f.loc())
         elif not ident:
             R.violation('e', 'R6', inst, 'select:self-competition', 'no identity comparison between the incumbent of an index '
@@ -296,7 +465,6 @@ def run(ctx):
                         'aggregate_signatures:from-selection', 'signatures from selection: %s, batch path from selection: %s' % (ok_sig, ok_path), af.loc())
         # every input signature reaches the selection routine: no order/multiplicity normalising collection
         # (e.g. a map keyed by the unauthenticated signer index) between `sigs` and the verified selection
-        from engine import flows_forward, LOSSY_COLLECTIONS
         sel = [c for c in body.calls() if any(glob_match(SELECT, n) for n in c.names())]
         for c in sel:
             a = c.args[2]
